@@ -11,7 +11,7 @@ RULE = ('cases = one abstract operator (letters, phase) rendered in every accept
         'character forms repr prints; letter lists; code lists/tuples/arrays 0-3 with a phase code 4-7 in front or at the end; dict + N), lists built from '
         'varargs / list / 2-D token array / generator / PauliList, index expressions (int, negative int, slice, boolean mask, index array), scalar '
         'factors 1,-1,i,-i; oracle = the reference encoding and plain Python list indexing; non-trivial = phase i/-i, or a non-string format, or a '
-        'non-contiguous index expression; distinct = sha1 of the case')
+        'non-contiguous index expression; distinct = sha1 of the case; plus a coverage-guided atheris campaign (bytes -> same cases, same oracle) on the parser module')
 ASSUMPTIONS = ['dict descriptions carry no phase (keys are qubit positions)', 'torch lists are sliced with positive steps only (tensor indexing has no negative steps)', 'only formats the parser documents are generated']
 
 FORMATS = ['str', 'str-repr', 'letters', 'codes-list', 'codes-tuple', 'codes-array', 'codes-front', 'dict-codes', 'dict-letters']
@@ -192,3 +192,6 @@ FACETS = [
     Facet('torch/parse-print-token', f_parse, strategy=lambda t: st_parse('torch', 5, T_FMT), examples={'quick': 600, 'thorough': 30000}, shards={'quick': 1, 'thorough': 4}, backend='torch'),
     Facet('torch/lists-indexing', f_list, strategy=lambda t: st_list('torch', 4, T_HOW), examples={'quick': 500, 'thorough': 25000}, shards={'quick': 1, 'thorough': 4}, backend='torch'),
 ]
+
+from harness.fuzzfacet import make_fuzz_facet
+FACETS.append(make_fuzz_facet('np/atheris-parser', 'c20', {'parse': f_parse, 'list': f_list}, {'quick': 15000, 'thorough': 400000}))
